@@ -129,7 +129,7 @@ class G(object):
         c = self.pool.mutable(kind, self.task)
         if not c:
             return None
-        rel = [x for x in c if id(x[1]) in self.pool.copyrel]
+        rel = [x for x in c if self.pool.is_copyrel(x[1])]
         if rel and self.rng.random() < 0.5:
             c = rel
         h, o = c[self.rng.randrange(len(c))]
